@@ -117,9 +117,9 @@ func (f *Frame) stmt(st *State, s ast.Stmt) *State {
 		}
 		cond = c.define(cond, "c")
 		s1 := st.clone()
-		c.assume(s1, cond)
+		c.assumeBranch(s1, cond)
 		s2 := st
-		c.assume(s2, Not(cond))
+		c.assumeBranch(s2, Not(cond))
 		var r1, r2 *State
 		if s1.pc.Op != "false" {
 			r1 = f.block(s1, s.Body.List)
@@ -485,8 +485,8 @@ func (f *Frame) switchStmt(st *State, s *ast.SwitchStmt, label string) *State {
 		}
 		cond := c.define(Or(conds...), "case")
 		s1 := cur.clone()
-		c.assume(s1, cond)
-		c.assume(cur, Not(cond))
+		c.assumeBranch(s1, cond)
+		c.assumeBranch(cur, Not(cond))
 		if hasFallthrough(cc) {
 			f.fail(cc, "fallthrough unsupported")
 		}
@@ -574,8 +574,8 @@ func (f *Frame) typeSwitch(st *State, s *ast.TypeSwitchStmt) *State {
 		}
 		cond := c.define(Or(conds...), "tcase")
 		s1 := cur.clone()
-		c.assume(s1, cond)
-		c.assume(cur, Not(cond))
+		c.assumeBranch(s1, cond)
+		c.assumeBranch(cur, Not(cond))
 		if obj := f.info.Implicits[cc]; obj != nil {
 			if len(cc.List) == 1 && !isNilExpr(f, cc.List[0]) {
 				t := f.typeOf(cc.List[0])
@@ -719,7 +719,13 @@ func (f *Frame) loopInvariants(st *State, ls *loopSpec, assert bool, phase strin
 		if err != nil {
 			panic(unsupported{err.Error()})
 		}
+		if !assert {
+			f.c.inSpecAssume++
+		}
 		t := f.specEval(st, f.entry, ex, info)
+		if !assert {
+			f.c.inSpecAssume--
+		}
 		if assert {
 			name := cl.Name
 			if name == "" {
@@ -805,9 +811,9 @@ func (f *Frame) genericLoop(st *State, label string, ls *loopSpec,
 		cond = c.define(cond, "lc")
 	}
 	exit := head.clone()
-	c.assume(exit, Not(cond))
+	c.assumeBranch(exit, Not(cond))
 	iter := head
-	c.assume(iter, cond)
+	c.assumeBranch(iter, cond)
 	var dec0 *Term
 	if iter.pc.Op != "false" {
 		dec0 = f.decreasesTerm(iter, ls)
@@ -1144,23 +1150,53 @@ func (f *Frame) refineHavoc(pre, head *State, heaps map[string]bool, mark int, r
 		if !ok {
 			continue
 		}
-		stable := true
+		// classify the written indices: loop-invariant terms, objects allocated within the iteration, others
+		var stableRefs []*Term
+		freshOnly := true
 		for _, r := range refs {
-			if !stableTerm(r, mark) {
-				stable = false
-				break
+			if stableTerm(r, mark) {
+				stableRefs = append(stableRefs, r)
+				continue
 			}
+			if len(r.Args) == 0 && strings.HasPrefix(r.Op, "|new!") {
+				continue // allocated in this iteration: not allocated at loop entry
+			}
+			freshOnly = false
+			break
 		}
-		if !stable {
+		if !freshOnly {
 			continue
 		}
 		preT, has := pre.heap[h]
 		if !has {
 			preT = c.heapInitE(h, pre.epoch)
 		}
+		allStable := len(stableRefs) == len(refs)
+		if !allStable {
+			// some writes go to objects allocated during an iteration: the array is havocked, but every object that
+			// existed before the loop (other than the loop-invariant written ones) keeps its content
+			if keySort(preT.Sort) != SInt {
+				continue
+			}
+			alloc0 := c.heapGet(pre, "ALLOC", ArrSort(SInt, SBool))
+			nh := head.heap[h]
+			rv := c.bvar("r", SInt)
+			conds := []*Term{Select(alloc0, rv)}
+			seen := map[string]bool{}
+			for _, r := range stableRefs {
+				k := renderTerm(r)
+				if seen[k] {
+					continue
+				}
+				seen[k] = true
+				conds = append(conds, Ne(rv, r))
+			}
+			c.assume(head, Forall([]*Term{rv}, Implies(And(conds...), Eq(Select(nh, rv), Select(preT, rv))), Select(nh, rv)))
+			continue
+		}
 		nh := preT
 		seen := map[string]bool{}
-		for _, r := range refs {
+		for _, r := range stableRefs {
 			k := renderTerm(r)
 			if seen[k] {
 				continue
